@@ -13,7 +13,7 @@ TECHNIQUE = ('bounded exhaustive enumeration of inputs (every tuple of <= 3 task
              'through the real diagnostics classes and through the task_stats / test_stats task pipeline, against a recount by hand')
 RULE = ('(tasks) every tuple of 1-3 statuses over the 5 task statuses; (tests) every tuple of 1-3 tasks over {no result, [], [T], [F], '
         '[T,T], [T,F], [F,T], [F,F]}; (labels) every tuple of 1-3 results over verdict x day in {d1, d2, absent} x meal in {m1, absent}, '
-        'with the selections (day), (meal), (day, meal), (meal, day) and an unknown label; oracle: each task under its status exactly '
+        'with every selection of 1-2 labels, three permutations of all 3 labels and an unknown label; oracle: each task under its status exactly '
         'once, each result under success / failure by verdict exactly once, tasks without result under missing, per label combination '
         'OK + KO = total = number of results carrying all requested labels, nb_missing_labels = the others, verdict of the summary <=> '
         'everything observed succeeded; the same through the generated tasks (task_stats, test_stats, test_stats_by_labels) on a prepared '
@@ -124,7 +124,8 @@ def job_tests(first):
 
 # 'index' is a metadata key of every Tripoli-4 response, hence a natural test label (and the bookkeeping key of Browser)
 LABEL_OPTS = [(v, d, m, i) for v in (True, False) for d in ('d1', 'd2', None) for m in ('m1', None) for i in (None, 7)]
-SELECTIONS = [('day',), ('meal',), ('day', 'meal'), ('meal', 'day'), ('index',), ('day', 'index'), ('zz',), ('day', 'zz')]
+SELECTIONS = [('day',), ('meal',), ('day', 'meal'), ('meal', 'day'), ('index',), ('day', 'index'), ('day', 'meal', 'index'), ('index', 'day', 'meal'),
+              ('meal', 'index', 'day'), ('zz',), ('day', 'zz')]
 
 
 def recount(combo, selection):
